@@ -22,6 +22,7 @@ from . import c05
 
 PROPS = ["MxlVerif.Props.C16"]
 F_DIRECTION = "F-C16-1"
+F_NONPERM = "F-C16-3"
 
 
 # --------------------------------------------------------------------------- helpers
@@ -455,7 +456,14 @@ def judge_case(ctx, case, R, M):
         if "err" in res["lin"]:
             res = dict(res, lin={"err": [res["lin"]["err"][0]]})  # the class, not the message
         if not allperm:
-            ctx.judge(one, res["lin"], res["lin"], Mr, what="linear RHS real vs model")
+            if "iso" in res and ev.get("uniform") is None and "direct" not in ev:
+                # finding F-C16-3: a non-permutation map of the right length is accepted by both mappers and the linear
+                # model no longer tracks the isotopomer model (judged against the real isotopomer marginal; R = M)
+                ctx.hist["eval:marginal nonperm"] = ctx.hist.get("eval:marginal nonperm", 0) + 1
+                ctx.judge(one, res["lin"], res["iso"], Mr, finding=F_NONPERM,
+                          what="linear RHS vs d/dt of positional enrichment in the isotopomer model (non-permutation map)")
+            else:
+                ctx.judge(one, res["lin"], res["lin"], Mr, what="linear RHS real vs model")
             continue
         steady = all(v == "0" for _, v in res["base_rhs"])
         if ev.get("zero_pool"):
